@@ -182,8 +182,12 @@ def rule_u2(chk: Check):
     for rel in MODULES:
         mod = parse_py(rel)
         classes = {c.name for c in mod.body if isinstance(c, ast.ClassDef)}
-        for cls in [n for n in mod.body if isinstance(n, ast.ClassDef)]:
-            for fn in [n for n in cls.body if isinstance(n, (ast.FunctionDef, ast.AsyncFunctionDef))]:
+        holders = [(cls.name, fn) for cls in mod.body if isinstance(cls, ast.ClassDef)
+                   for fn in cls.body if isinstance(fn, (ast.FunctionDef, ast.AsyncFunctionDef))] + \
+                  [("<module>", fn) for fn in mod.body if isinstance(fn, (ast.FunctionDef, ast.AsyncFunctionDef))]
+        for cname, fn in holders:
+            cls = type("C", (), {"name": cname})
+            if True:
                 for n in ast.walk(fn):
                     tg = n.targets if isinstance(n, ast.Assign) else ([n.target] if isinstance(n, (ast.AugAssign, ast.AnnAssign)) else [])
                     for t in tg:
